@@ -6,7 +6,6 @@ from typing import TYPE_CHECKING
 from typing import Self
 
 from pest.grammar import Expression
-from pest.grammar.expressions.terminals import Identifier
 from pest.pairs import Pair
 
 if TYPE_CHECKING:
@@ -37,6 +36,22 @@ MODIFIER_MAP: dict[str, int] = {v: k for k, v in MODIFIER_SYMBOLS.items()}
 def modifier_to_str(flags: int) -> str:
     """Convert a modifier bit field into a string of symbols, in defined order."""
     return "".join(symbol for bit, symbol in MODIFIER_SYMBOLS.items() if flags & bit)
+
+
+def visible_in_atomic(pairs: list[Pair]) -> list[Pair]:
+    """Return the pairs that survive inside an atomic rule.
+
+    An atomic rule hides the pairs of the rules it calls, however deep, except
+    for pairs produced by a compound-atomic (`$`) or non-atomic (`!`) rule, which
+    are kept together with everything below them.
+    """
+    visible: list[Pair] = []
+    for pair in pairs:
+        if pair.rule.modifier & (COMPOUND | NONATOMIC):
+            visible.append(pair)
+        else:
+            visible.extend(visible_in_atomic(pair.children))
+    return visible
 
 
 class Rule(Expression):
@@ -97,18 +112,9 @@ class Rule(Expression):
 
         tag: str | None = state.tag_stack.pop() if state.tag_stack else None
 
-        if self.modifier & ATOMIC:  # TODO: COMMENT and WHITESPACE too?
-            if isinstance(self.expression, Rule):
-                rule: Rule | None = self.expression
-            elif isinstance(self.expression, Identifier):
-                assert state.parser
-                rule = state.parser.rules.get(self.expression.value)
-            else:
-                rule = None
-
-            if not rule or not rule.modifier & (NONATOMIC | COMPOUND):
-                # Atomic rule silences children
-                children = []
+        if self.hides_inner_pairs():
+            # Atomic rule silences children, apart from nested `$` and `!` rules.
+            children = visible_in_atomic(children)
 
         pairs.append(
             Pair(
@@ -173,18 +179,9 @@ class Rule(Expression):
                 with gen.block():
                     gen.writeln(f"{tag_var} = None")
 
-                if self.modifier & ATOMIC:  # TODO: COMMENT and WHITESPACE too?
+                if self.hides_inner_pairs():
                     gen.writeln(f"# Atomic rule: {self.name!r}")
-                    assert gen.rules is not None
-                    if isinstance(self.expression, Rule):
-                        rule: Rule | None = self.expression
-                    elif isinstance(self.expression, Identifier):
-                        rule = gen.rules.get(self.expression.value)
-                    else:
-                        rule = None
-
-                    if not rule or not rule.modifier & (NONATOMIC | COMPOUND):
-                        children = "[]"
+                    children = f"visible_in_atomic({children})"
 
                 pair = (
                     f"Pair("
@@ -197,6 +194,13 @@ class Rule(Expression):
                 with gen.block():
                     gen.writeln(f"{pairs_var}.append({pair})")
                 gen.writeln(f"return {matched_var}")
+
+    def hides_inner_pairs(self) -> bool:
+        """True if pairs produced inside this rule are hidden (pest's `Atomic`)."""
+        if self.modifier & ATOMIC:
+            return True
+        # COMMENT and WHITESPACE are implicitly atomic unless declared `$`.
+        return self.name in ("COMMENT", "WHITESPACE") and not self.modifier & COMPOUND
 
     def children(self) -> list[Expression]:
         """Return this expression's children."""
